@@ -157,8 +157,8 @@ PROPS = {
  'C07': dict(
     group='shim', only=['hist'], ops=['hist'],
     klass=lambda c: 'hist:noup' + c['args'][0] + ':ops' + str(min(25, 5 * (c['args'][3].count(';') // 5))) + ('+faults' if '!' in c['args'][3] else ''),
-    modules=['Ysshra.Props.C07', 'Ysshra.Bridge.SnapShim'],
-    theorem_files=['Props/C07.lean', 'Bridge/SnapShim.lean'],
+    modules=['Ysshra.Props.C07', 'Ysshra.Bridge.SnapShim', 'Ysshra.Bridge.Validation'],
+    theorem_files=['Props/C07.lean', 'Bridge/SnapShim.lean', 'Bridge/Validation.lean'],
     anchors=['agent/shimagent/', 'sshutils/cert/validation.go'],
     n=dict(quick=500, thorough=20000),
     timeout=dict(quick=900, thorough=3400),
@@ -393,7 +393,7 @@ MANIFEST_TEXT = {
     note=_NOTE + 'sync.Cond and the Go scheduler are trusted (partial).',
     technique='Lean 4 proof (invariant over event histories) over regenerated table facts + observed-schedule correspondence'),
  'C07': dict(
-    text='Lean theorems about an arbitrary shim state (hence after every history): a listing returned to the client contains no certificate outside its validity window, in memory or upstream (c07_list_output_valid); without faults the underlying agent is purged too and a signing request naming a purged certificate yields no signature (c07_purged_from_agent, c07_sign_purged_fails); whenever filter succeeds, every certificate in the key list it returns from the underlying agent is inside its validity window (c07_listing_valid: loop invariant over the swap-removing remove closure and the live backing array, original index range, stale tail included; Lemmas/ShimArr), entries stay pairwise different and come from the listing; after a successful underlying listing every in-memory certificate is inside its (MaxInt64-clamped) validity window and, for a non-empty listing, its key is among the listed keys; an empty listing drops nothing; a failing listing touches nothing; unlimited validity never expires. '
+    text='ValidateSSHCertTime is translated from validation.go on every run and proved equal to the model\'s validity test for all bounds and clock values (validate_bridge). Lean theorems about an arbitrary shim state (hence after every history): a listing returned to the client contains no certificate outside its validity window, in memory or upstream (c07_list_output_valid); without faults the underlying agent is purged too and a signing request naming a purged certificate yields no signature (c07_purged_from_agent, c07_sign_purged_fails); whenever filter succeeds, every certificate in the key list it returns from the underlying agent is inside its validity window (c07_listing_valid: loop invariant over the swap-removing remove closure and the live backing array, original index range, stale tail included; Lemmas/ShimArr), entries stay pairwise different and come from the listing; after a successful underlying listing every in-memory certificate is inside its (MaxInt64-clamped) validity window and, for a non-empty listing, its key is among the listed keys; an empty listing drops nothing; a failing listing touches nothing; unlimited validity never expires. '
          'The whole state machine (swap-remove closure included) is compared with the real Server on generated histories with real certificates and the real clock.',
     design_ref='DESIGN.md §7 C07, Appendix C',
     note=_NOTE + 'x/crypto keyring/agent client and the wall clock are trusted.',
